@@ -32,6 +32,7 @@ KINDS = {
     "s": "datetime64[s]",
     "ms": "datetime64[ms]",
     "us": "datetime64[us]",
+    "td": "timedelta64[D]",
     "obj": "object",
 }
 
@@ -53,6 +54,8 @@ def np_array(kind, toks):
         return np.array(["" if t is None else t for t in toks], dtype=f"U{width}")
     if kind in ("D", "s", "ms", "us", "h", "m"):
         return np.array(["NaT" if t is None else t for t in toks], dtype=f"datetime64[{kind}]")
+    if kind == "td":
+        return np.array(["NaT" if t is None else int(t) for t in toks], dtype="timedelta64[D]")
     if kind == "obj":
         a = np.empty(len(toks), dtype=object)
         for i, t in enumerate(toks):
@@ -221,6 +224,8 @@ A = {
         "key": [None, "1970-01-01T00:00:00", "2020-02-29T23:59:59.999999"],
     },
     "obj": {"quick": [None, 1, 2, 3], "thorough": [None, 1, 2, 3], "key": [None, 1, 2]},
+    # timedelta64 is a subdtype of np.integer (is_integer() is true for it) yet holds NaT
+    "td": {"quick": [None, "1", "3", "-2"], "thorough": [None, "1", "3", "-2", "0"], "key": [None, "1", "3"]},
 }
 
 
@@ -246,6 +251,8 @@ def order_key(kind):
         return lambda t: [ord(c) for c in t]
     if kind in ("D", "s", "ms", "us"):
         return lambda t: np.datetime64(t).astype("datetime64[us]").astype("int64").item()
+    if kind == "td":
+        return lambda t: int(t)
     raise ValueError(kind)
 
 
@@ -259,4 +266,6 @@ def value_order_key(v):
         return (v - datetime.datetime(1970, 1, 1)) // datetime.timedelta(microseconds=1)
     if isinstance(v, datetime.date):
         return (v - datetime.date(1970, 1, 1)).days * 86400 * 10**6
+    if isinstance(v, datetime.timedelta):
+        return v // datetime.timedelta(microseconds=1)
     return v
